@@ -97,6 +97,9 @@ type sim struct {
 	maxOffset       int64
 	partitionsDiffer bool
 	hllKeys         map[string]bool
+	findings        []finding
+	firstPfadd      map[string]int
+	firstOther      map[string]int
 }
 
 var runSeq int64
@@ -266,6 +269,8 @@ func (s *sim) bubble() {
 		s.lg("req."+r.name, "%d id=%d ts=%d %s", i, r.id, r.ts, r.String())
 	}
 
+	s.indexHLL()
+
 	// ---- sync points
 	var syncs []int
 	for i, m := 0, s.t.Choose(3); i < m; i++ {
@@ -322,20 +327,20 @@ func (s *sim) bubble() {
 			case 4:
 				s.stepReopen(in)
 			}
-			if len(c.Viol) > 0 {
-				return
-			}
 		}
 		if s.t.Bool(300) {
 			s.stepSleep()
 		}
 		s.compareAt(target)
-		if len(c.Viol) > 0 {
-			return
+		if s.unknown() {
+			break
 		}
 	}
-	s.compareReplies()
+	if !s.unknown() {
+		s.compareReplies()
+	}
 	s.finish()
+	s.emit()
 }
 
 // ensure creates the instance's state machine at the current fake instant.
@@ -718,212 +723,6 @@ func (s *sim) stepReopen(in *inst) {
 	s.c.Probe("reopen_at_cut")
 	s.c.Fault("restart")
 	s.lg("reopen", "%d pos=%d", in.idx, in.applied)
-}
-
-func tableOfItem(key string) string {
-	if i := strings.IndexByte(key, ':'); i > 0 {
-		return key[:i]
-	}
-	return key
-}
-
-// excused reports whether a logical dump item may differ between two
-// instances under the local-deletion policy: the key was physically removed
-// by the background checker of one of them.
-func (s *sim) excused(a, b *inst, item string) bool {
-	if s.policy != common.LocalDeletion || (len(a.taint) == 0 && len(b.taint) == 0) {
-		return false
-	}
-	parts := strings.SplitN(item, "|", 4)
-	has := func(pred func(class, key string) bool) bool {
-		for _, in := range []*inst{a, b} {
-			for k := range in.taint {
-				i := strings.IndexByte(k, '|')
-				if pred(k[:i], k[i+1:]) {
-					return true
-				}
-			}
-		}
-		return false
-	}
-	switch parts[0] {
-	case "table":
-		return has(func(_, key string) bool { return tableOfItem(key) == parts[1] })
-	case "tables":
-		return true
-	case "scan":
-		// the scan runs on into later tables
-		return has(func(cl, key string) bool { return cl == parts[1] && tableOfItem(key) >= parts[2] })
-	case "exp":
-		return has(func(cl, key string) bool { return cl == parts[1] && key == parts[2] })
-	default:
-		return has(func(cl, key string) bool { return cl == parts[0] && key == parts[1] })
-	}
-}
-
-func (s *sim) compareAt(pos int) {
-	c := s.c
-	var live []*inst
-	for _, in := range s.ins {
-		if in.dead == "" && in.sm != nil && in.applied == pos {
-			live = append(live, in)
-		}
-	}
-	if len(live) < 2 {
-		return
-	}
-	now := s.now()
-	logical := make([]dump, len(live))
-	phys := make([]dump, len(live))
-	for i, in := range live {
-		logical[i] = logicalDump(in.st, s.ntable)
-		phys[i] = physicalDump(in.st)
-		s.lg("dump", "%d pos=%d at=%d items=%d phys=%d h=%x", in.idx, pos, now-bubbleEpoch, len(logical[i]), len(phys[i]), hashDump(logical[i]))
-	}
-	c.Probe("dump_compared")
-	// physical entries that depend on when the HyperLogLog write cache was flushed
-	skipPhys := map[string]bool{}
-	for k := range s.hllKeys {
-		skipPhys["phys|"+fmt.Sprintf("%x", append([]byte{rockredis.KVType}, k...))] = true
-		skipPhys["phys|"+fmt.Sprintf("%x", append([]byte{rockredis.TableMetaType}, "meta:"+tableOfItem(k)...))] = true
-	}
-	for i := 0; i < len(live); i++ {
-		for j := i + 1; j < len(live); j++ {
-			a, b := live[i], live[j]
-			if a.cfg.eng != b.cfg.eng {
-				c.Probe("engines_differ")
-			}
-			if m := diffDumps(logical[i], logical[j], func(item string) bool { return s.excused(a, b, item) }, c); m != "" {
-				c.Violate("C07", "data-differs", "", "after the same %d log entries instance %d (%s) and %d (%s) differ: %s", pos, a.idx, a.cfg.eng, b.idx, b.cfg.eng, m)
-				return
-			}
-			// physical content: the engines used here (mem, pebble) have no
-			// compaction filter, so the stored key-value pairs are the result
-			// of the write batches alone; under local deletion only when no
-			// background removal happened on either side.
-			if s.policy == common.LocalDeletion && (len(a.taint) > 0 || len(b.taint) > 0) {
-				continue
-			}
-			if m := diffDumps(phys[i], phys[j], func(item string) bool { return skipPhys[item] }, c); m != "" {
-				c.Violate("C07", "physical-differs", "", "after the same %d log entries instance %d (%s) and %d (%s) store different key-value pairs: %s", pos, a.idx, a.cfg.eng, b.idx, b.cfg.eng, m)
-				return
-			}
-			c.Probe("physical_compared")
-		}
-	}
-}
-
-func hashDump(d dump) uint64 {
-	var sb strings.Builder
-	for _, k := range core.SortedKeys(d) {
-		sb.WriteString(k)
-		sb.WriteByte(0)
-		sb.WriteString(d[k])
-		sb.WriteByte(1)
-	}
-	return core.HashString(sb.String())
-}
-
-func clip(s string) string {
-	if len(s) > 160 {
-		return s[:160] + "..."
-	}
-	return s
-}
-
-func diffDumps(a, b dump, skip func(string) bool, c *core.RunCtx) string {
-	keys := map[string]bool{}
-	for k := range a {
-		keys[k] = true
-	}
-	for k := range b {
-		keys[k] = true
-	}
-	var out []string
-	for _, k := range core.SortedKeys(keys) {
-		va, oka := a[k]
-		vb, okb := b[k]
-		if oka && okb && va == vb {
-			continue
-		}
-		if skip != nil && skip(k) {
-			c.Probe("difference_excused")
-			continue
-		}
-		if !oka {
-			va = "<absent>"
-		}
-		if !okb {
-			vb = "<absent>"
-		}
-		out = append(out, fmt.Sprintf("%s: %s vs %s", clip(k), clip(va), clip(vb)))
-		if len(out) >= 4 {
-			break
-		}
-	}
-	return strings.Join(out, "; ")
-}
-
-func (s *sim) compareReplies() {
-	c := s.c
-	for i := 0; i < s.n; i++ {
-		r := s.log[i]
-		for x := 0; x < len(s.ins); x++ {
-			for y := x + 1; y < len(s.ins); y++ {
-				a, b := s.ins[x], s.ins[y]
-				ra, oka := a.replies[i]
-				rb, okb := b.replies[i]
-				if !oka || !okb {
-					continue
-				}
-				c.Count("replies_compared", 1)
-				if ra == rb {
-					continue
-				}
-				if s.policy == common.LocalDeletion {
-					ex := false
-					for _, k := range r.keys {
-						if p, ok := a.taint[k]; ok && p <= i {
-							ex = true
-						}
-						if p, ok := b.taint[k]; ok && p <= i {
-							ex = true
-						}
-					}
-					if ex {
-						c.Probe("reply_difference_excused")
-						continue
-					}
-				}
-				c.Violate("C07", "reply-differs", "", "request %d (%s, ts=%d) answered %s on instance %d and %s on instance %d", i, r.String(), r.ts, clip(ra), a.idx, clip(rb), b.idx)
-				return
-			}
-		}
-	}
-}
-
-// checkDead: a panic of the apply path kills the replica. When every replica
-// dies at the same request it is a function of the log (C11's subject, not
-// C07's); a replica that survives what killed another one is a divergence.
-func (s *sim) checkDead() {
-	c := s.c
-	var dead, alive []*inst
-	for _, in := range s.ins {
-		if strings.HasPrefix(in.dead, "panic") {
-			dead = append(dead, in)
-			s.lg("dead", "%d %s", in.idx, in.dead)
-			c.Violate("C11", "apply-panic", "", "instance %d: %s", in.idx, in.dead)
-		} else if in.dead == "" && in.sm != nil {
-			alive = append(alive, in)
-		}
-	}
-	for _, d := range dead {
-		for _, a := range alive {
-			if a.applied > d.applied {
-				c.Violate("C07", "panic-differs", "", "instance %d died applying request %d.. (%s), instance %d applied the same log up to %d without dying", d.idx, d.applied, d.dead, a.idx, a.applied)
-			}
-		}
-	}
 }
 
 func (s *sim) finish() {
